@@ -183,6 +183,16 @@ def _plain(v, what):
     return v[1]
 
 
+def _label_text(v):
+    """the text an edge label shows: a plain string, or the text of an HTML-like label (formatting dropped)"""
+    if v is None or v[0] != "html":
+        return _plain(v, "edge label").strip()       # blanks around a label do not show (the view strips them too)
+
+    def text_of(el):
+        return "".join(c if isinstance(c, str) else (" " if c["tag"] == "BR" else text_of(c)) for c in el["ch"])
+    return html.unescape(text_of(v[1])).strip()
+
+
 def _node_index(v):
     if v[0] == "html" or not re.fullmatch(r"-?\d+", v[1]):
         raise ParseError("node statement name is not a node index: %r" % (v[1] if v[0] != "html" else "<html>"))
@@ -300,7 +310,7 @@ def parse_dot(src: str):
                     yp = yp if yp is not None else _split_compass(at.get("headport"))
                     edges.append({"src": _node_index(x), "sp": _port_of(xp, "edge source port"),
                                   "dst": _node_index(y), "dp": _port_of(yp, "edge target port"),
-                                  "label": _plain(at.get("label"), "edge label"),
+                                  "label": _label_text(at.get("label")),
                                   "color": _plain(at.get("color"), "edge colour"), "path": path})
                 continue
             if ends[0][1] is not None:
@@ -443,7 +453,7 @@ def hugr_view(h):
         try:
             k = h.port_kind(s)
             if isinstance(k, tys.ValueKind):
-                kk = ["value", str(k.ty)]
+                kk = ["value", str(k.ty).strip()]
             elif isinstance(k, tys.OrderKind):
                 kk = ["order"]
             elif isinstance(k, tys.ConstKind):
@@ -538,7 +548,12 @@ class C20(fw.Prop):
     rule = ("HUGRs built by generated well-formed builder programs (harness/progs.py: all container kinds, "
             "order/const/function/control-flow edges, metadata incl. non-ASCII and nested values, inserted "
             "sub-HUGRs), optionally reloaded from their JSON, each rendered under 2-3 of the 6 "
-            "palette x qualify_op_name configurations; the DOT source is parsed into the abstract tree.  "
+            "palette x qualify_op_name configurations (the first through render_dot() without a configuration: "
+            "whatever RenderConfig() is); the DOT source is parsed into the abstract tree; judged: node statements "
+            "(index, one of the node's two display names, cells 0..n-1 per direction), clusters and their nesting, edge "
+            "statements (end nodes, offsets, type label on value edges), HUGR unchanged, and across configurations "
+            "everything but colours and - when qualification differs - names; colours, metadata text, labels of "
+            "non-value edges, cell texts and every order are diagnostics only (model drift).  "
             "a third of the HUGRs are then mutated (leaf nodes deleted, "
             "new nodes added so that freed indices are reused and children lists leave index order; the new nodes "
             "carry Custom or extension operations of every flavour).  "
@@ -557,9 +572,12 @@ class C20(fw.Prop):
             "non-value link (order/const/function/control-flow), or it has a node with more than 16 ports in one "
             "direction, more than 16 children, or nesting deeper than 16")
     trusted = ["harness/props/c20.py: tokenising parser of the DOT text the graphviz package emits and of the HTML-like "
-               "node labels (insensitive to whitespace, quoting style, attribute and statement order; fails closed on "
-               "unexpected structure); display names and metadata strings are read from the "
-               "HUGR through op.name()/op_def().name/str(value) as render.py does",
+               "node labels (insensitive to whitespace, quoting style, attribute and statement order, styling attributes "
+               "and where they are set - node/edge/graph default statements are applied with DOT's scoping -, inline "
+               "formatting of the label, spelling of the port identifiers; fails closed on structure that is not a "
+               "drawing of nodes with port cells, clusters and edges); display names and metadata strings are read from "
+               "the HUGR through op.name()/op_def().name/str(value) as render.py does, blanks around names and type "
+               "labels dropped on both sides",
                "the graphviz Python package (DOT text emission) is outside the model"]
     assumptions = ["hierarchy reached from the root covers the HUGR's nodes (checked per case by the monitor)"]
 
@@ -667,6 +685,11 @@ class C20(fw.Prop):
         for ci in case["cfgs"]:
             pal, q = CONFIGS[ci]
             palette = PALETTE[pal]
+            if ci == 0:
+                # the public entry point without a configuration: whatever the default configuration is (which
+                # palette and which qualification is the default is not part of the property)
+                dflt = RenderConfig()
+                palette, q = dflt.palette, bool(dflt.qualify_op_name)
             cfg = {"pal": {f: getattr(palette, f) for f in PAL_FIELDS}, "qualify": q}
             try:
                 if ci == 0:
